@@ -1,7 +1,7 @@
 #!/bin/bash
 # tools/seed_confirm.sh <PROP> <a|b>  -- confirm a seeded change in its scratch worktree /tmp/mut_<PROP>, then store it
 set -u
-P=$1; V=$2; W=/tmp/mut_$P; O=$W/out
+P=$1; V=$2; W=${SEED_WT:-/tmp/mut_$P}; O=$W/out
 cd $W || exit 2
 git checkout -q -- . ; rm -f wgsl_to_wgpu/tests/demo_*.rs
 mkdir -p wgsl_to_wgpu/tests
